@@ -502,6 +502,20 @@ func genMalformed(r *lib.Rng, id int64) Case {
 		c.Nsamp = 3 + r.Range(4, 8)
 	case 1:
 		c.Nmono = c.Nsamp - c.Npre + r.Range(1, 3)
+		if !r.Chance(1, 3) {
+			// a refused nmonotone that would, if it were accepted, count monotone samples past the end of the
+			// block: a ramp that starts on the last searchable sample and rises to the block's end (seed C01-17)
+			la := c.Nsamp - c.Npre
+			n := 3*c.Nsamp + r.Range(0, 20)
+			c.Thr = 100
+			c.Pre, c.PreCut = nil, nil
+			c.Data = flatRamp(n, n-la-r.Range(0, 1), 150, la+5, 1000)
+			c.Ops = []int{n}
+			if r.Bool() {
+				c.Data = append(c.Data, flatRamp(n, n-la, 150, la+5, 1000)...)
+				c.Ops = []int{n, n}
+			}
+		}
 	default:
 		c.Data = nil
 		c.Ops = []int{0}
